@@ -76,6 +76,14 @@ def _override_deepens(f, attr):
                 return True
             if isinstance(v, ast.Call) and (dotted(v.func) or "") in ("list", "dict") or (isinstance(v, ast.Subscript) and norm(v).endswith("[:]")):
                 return "shallow"
+        # new.attr.update({k: v.copy() for k, v in new.attr.items()})  -- every value replaced by its copy, keys and order kept
+        if isinstance(n, ast.Expr) and isinstance(n.value, ast.Call) and isinstance(n.value.func, ast.Attribute) and n.value.func.attr == "update" \
+                and norm(n.value.func.value).endswith("." + attr) and len(n.value.args) == 1 and isinstance(n.value.args[0], (ast.DictComp, ast.GeneratorExp, ast.ListComp)):
+            comp = n.value.args[0]
+            it = norm(comp.generators[0].iter)
+            val = comp.value if isinstance(comp, ast.DictComp) else (comp.elt.elts[1] if isinstance(comp.elt, ast.Tuple) and len(comp.elt.elts) == 2 else None)
+            if it.endswith("." + attr + ".items()") and isinstance(val, ast.Call) and isinstance(val.func, ast.Attribute) and val.func.attr == "copy" and not comp.generators[0].ifs:
+                return True
     return False
 
 
